@@ -210,6 +210,10 @@ WbFold(wb, i, M, k, sv) ==
        ELSE IF e.k \in {"assign", "prop"} /\ Abs(e.lit) \in 1..k
        THEN IF sv[Abs(e.lit)] # 0 /\ sv[Abs(e.lit)] # Signed(e.lit, e.lvl)
             THEN R("mech:assigned-twice", sv)   \* (a repeated unit clause puts its literal on the trail twice: harmless, allowed)
+            ELSE IF e.k = "assign" /\ e.lvl = 1 /\ sv[Abs(e.lit)] = 0 /\ (\E m \in M : SatLits(m, asm) /\ ~LitTrue(m, e.lit))
+                 (* a literal asserted at the top level (a fact: a learned unit, a constraint found to be unit  *)
+                 (* when it is added) holds in every model of what the solver was given so far                *)
+                 THEN R("fact-not-entailed:" \o ToString(CHOOSE m \in M : SatLits(m, asm) /\ ~LitTrue(m, e.lit)), sv)
             ELSE IF e.k = "prop" /\ InRange(e, k) /\ ~(\E x \in 1..Len(e.lits) : e.lits[x] = e.lit) THEN R("mech:reason-without-literal", sv)
             ELSE IF e.k = "prop" /\ InRange(e, k) /\ sv[Abs(e.lit)] = 0 /\ CoefOf(e, e.lit) <= SlackS(e, sv, Len(e.lits))
                  THEN R("mech:propagation-not-forced", sv)
